@@ -285,6 +285,9 @@ bool release_bev(int i) {
   v.released = true;
   if (v.type == 3 && v.cof) mark_owner_released(v.under);
   bufferevent_free(v.bev);
+  // freeing a filter re-enables reading on its underlying bufferevent, freeing a pair end talks to its partner: either may schedule a
+  // deferred callback (which holds a reference) on a bufferevent that is still around
+  for (auto &x : W->bev) if (&x != &v && x.st == ST_ALIVE) W->defer_risk = true;
   return true;
 }
 void activate_bev(int i, Src &s) {
